@@ -406,7 +406,7 @@ func runC10(c *Ctx) {
 		}
 		hdrErr := extractOf(ph[0].Instr.(*ssa.Call), 3)
 		base := flipAll(nonNilAssumes(fn, hdrErr))
-		base = append(base, Assume{`\(p\.r == nil\)`, true}, Assume{`\(p\.maxAttachments > 0\)`, false})
+		base = append(base, Assume{`\(p\.r == nil\)`, true}, Assume{`\(p\.r != nil\)`, false}, Assume{`\(p\.maxAttachments > 0\)`, false})
 		r1, t1 := PrunedCanReach(fn, nil, append(base, Assume{`.*\.IsBinary\(\)`, false}), nil, clearR)
 		c.Ob("C10-D5", "jsonparser.Parser.Add/non-binary-not-retained", fn.Pos(), !r1, "a non-binary packet can leave Add with the reconstructor retained: every later packet would be treated as its attachment: "+trailString(p, t1))
 		r2, t2 := PrunedCanReach(fn, nil, append(base, Assume{`.*\.IsBinary\(\)`, true}, Assume{`\(.*\.Attachments == 0\)`, true}, Assume{`\(.*\.Attachments != 0\)`, false}, Assume{`\(.*\.Attachments > 0\)`, false}, Assume{`\(.*\.Attachments < 1\)`, true}), nil, clearR)
